@@ -50,6 +50,8 @@ type DADouble struct {
 	Submits int
 	// LastOffered is the number of blobs of the most recent Submit call.
 	LastOffered int
+	// Quiet suppresses the DAGet / DAGetIDs records (bulk scenarios).
+	Quiet bool
 	// ErrWrap is how a scripted failure of the DA interface's error values is dressed: "" (the bare value),
 	// "front" (context in front of it), "back" (detail behind it), "both".
 	ErrWrap string
